@@ -310,6 +310,14 @@ Definition c01_rd_step (derived_lon computed : list Q) (s : c01_lazy) (r : c01_r
   | RdOther => s
   end.
 
+(* what a reader leaves in Grid._ds: the (wrapped) longitudes it decoded and the areas the source supplied,
+   if any, in face order — MPAS areaCell / areaTriangle, SCRIP grid_area, ESMF elementArea *)
+Definition c01_reader_state (lon : list Q) (areas : option (list Q)) : c01_lazy :=
+  {| lz_lon := Some (c01_wrap_all lon); lz_areas := areas |}.
+
+Definition c01_reads_area (r : c01_rd) : bool :=
+  match r with RdFaceAreas | RdFaceJacobian => true | _ => false end.
+
 Definition c01_rd_run (derived_lon computed : list Q) (s : c01_lazy) (rs : list c01_rd) : c01_lazy :=
   fold_left (c01_rd_step derived_lon computed) rs s.
 
